@@ -25,6 +25,8 @@ import (
 	"regexp"
 	"strconv"
 	"strings"
+
+	"golang.org/x/tools/go/ssa"
 )
 
 type bceListing struct {
@@ -107,6 +109,18 @@ func (c *Ctx) bceProven(p token.Pos) bool {
 		return false
 	}
 	return !l.unproven[rel][pp.Line]
+}
+
+// bceProvenIn: as bceProven, for an operation of function f. Nothing is credited inside a generic function or an
+// instantiation of one: the compiler only compiles the instantiations a package uses, so the absence of a report there
+// does not mean that a check was removed.
+func (c *Ctx) bceProvenIn(f *ssa.Function, p token.Pos) bool {
+	for g := f; g != nil; g = g.Parent() {
+		if g.TypeParams().Len() > 0 || g.Origin() != nil || len(g.TypeArgs()) > 0 {
+			return false
+		}
+	}
+	return c.bceProven(p)
 }
 
 const bceWhy = "the Go compiler's prove pass removed the bounds check on this line (check_bce listing)"
